@@ -122,9 +122,7 @@ def check_replies(ctx, trx, n0, name):
 
 def mk_trx_c14(ctx, T):
     net, log, rnd = env.std_env(ctx, T)
-    class _Time:
-        def sleep(self, x): pass
-    T.ctrl_if.time = _Time()
+    T.ctrl_if.time = env.FakeTime()
     pm = T.fake_pm.FakePM(-120, -105, -75, -50)
     trx = mk_trx(ctx, T, 'T', 5700, pwr_meas=pm)
     pm.trx_list = [trx]
